@@ -447,7 +447,10 @@ static int run(const uint8_t *tape_, size_t len, struct vp_report *rep, unsigned
             if (!ubase_check(upipe_set_output(pidf, head))) ret = vp_internal(rep, "pidf output");
             upipe_ts_pidf_add_pid(pidf, pid);
             if (noise_sub) upipe_ts_pidf_add_pid(pidf, noise_pid);
-            else if (tp_u8(&t) & 1) { upipe_ts_pidf_add_pid(pidf, noise_pid); upipe_ts_pidf_del_pid(pidf, noise_pid); }
+            else { uint8_t pb = tp_u8(&t);
+                   if (pb & 1) { upipe_ts_pidf_add_pid(pidf, noise_pid); upipe_ts_pidf_del_pid(pidf, noise_pid); }
+                   if (pb & 2) upipe_ts_pidf_del_pid(pidf, noise_pid);          /* del of a PID that is not in the filter: still not in */
+                   if (pb & 4) upipe_ts_pidf_add_pid(pidf, pid); }              /* add of one that is: still in */
             head = pidf;
         }
     }
@@ -522,10 +525,13 @@ static int run(const uint8_t *tape_, size_t len, struct vp_report *rep, unsigned
             if (o->done || o->at != k) continue;
             o->done = true;
             if (o->kind == 1) {
-                noise_in_pidf = !noise_in_pidf;
-                R("  before #%zu: ts_pid_filter %s PID %u\n", k, noise_in_pidf ? "add" : "del", noise_pid);
+                /* one operation in four repeats the state the PID is in (add of a PID that passes already, del of one that does
+                 * not): the set of PIDs that pass must not change */
+                bool again = o->pidsel == 2;
+                if (!again) noise_in_pidf = !noise_in_pidf;
+                R("  before #%zu: ts_pid_filter %s PID %u%s\n", k, noise_in_pidf ? "add" : "del", noise_pid, again ? " (again)" : "");
                 int err = noise_in_pidf ? upipe_ts_pidf_add_pid(pidf, noise_pid) : upipe_ts_pidf_del_pid(pidf, noise_pid);
-                if (!ubase_check(err)) FAIL("C15/pidf/control", "ts_pid_filter add/del_pid(%u) failed", noise_pid);
+                if (!ubase_check(err) && !again) FAIL("C15/pidf/control", "ts_pid_filter add/del_pid(%u) failed", noise_pid);
                 cls |= 1u << CL_Y_DYNPIDF;
             } else {
                 struct xsub *x = &c->xs[o->j];
